@@ -44,6 +44,16 @@ Theorem C01_detect_writes_no_file : forall p fields nrows existed, Forall self_d
 Proof. exact closure_detect_no_file_proof. Qed.
 Print Assumptions C01_detect_writes_no_file.
 
+(* whole-dataset verification (any number of fields): no failure is counted, overall or in any field, and
+   every discovered constraint is counted as a pass *)
+Theorem C01_dataset_no_failures : forall p fields, Forall self_discovered fields ->
+  let v := verify_dataset p (as_fields fields) in
+  v_failures v = 0 /\
+  v_passes v = Z.of_nat (length (flat_map (@snd column (list constr)) fields)) /\
+  forall r, In r (v_fields v) -> fr_failures r = 0.
+Proof. exact closure_dataset_proof. Qed.
+Print Assumptions C01_dataset_no_failures.
+
 (* the hypothesis is met by a concrete column (with nulls and both infinities) *)
 Example C01_self_discovered_inhabited :
   let c := {| c_type := TReal; c_cells := [Some VNegInf; None; Some (VNum 5); Some VPosInf] |} in
